@@ -1,7 +1,9 @@
 import SaModel.Build.Finish
 import SaModel.Spec.Interp
 import SaModel.Props.C03
+import SaModel.Props.C02
 import SaModel.Lemmas.C05Exact
+import SaModel.Lemmas.C05ReadStruct
 /-
 C05 — values a column cannot represent are rejected, never silently altered.
 Property theorems about the builder model (SaModel/Build) — every statement is ∀ over values, widths, states.
@@ -15,6 +17,11 @@ Property theorems about the builder model (SaModel/Build) — every statement is
   lossy cells     `documentedLossy` (float narrowing, int → float, decimal columns from text / floats) and
                   `C05_only_documented_lossy`: in every other cell `Spec.interpScalar` is the identity on the value
                   (`Faithful`) or an error; `C05_lossy_cells_alter`: each lossy family does alter a value (witnesses)
+  reader          `read_mustFail`: whenever the value-level specification `Read.cast` says a typed read must fail
+                  (integer out of the target's range, not a char, null into a non-Option target, tuple longer than the
+                  struct, missing field, unknown variant …, at any depth), `readAs` fails — for every (target, column)
+                  pair except the two recorded known findings, excluded by the decidable `noKnown`;
+                  `exclusion_23_needed` / `exclusion_24_needed`: witnesses that both exclusions are needed
 -/
 namespace SaModel.Props.C05
 open SaModel SaModel.Build SaModel.Spec
@@ -395,5 +402,178 @@ example : (convLeaf {} (.int .i8) (.int .i64 128)).isErr = true := by decide
 example : (convLeaf {} (.int .u8) (.int .i8 (-1))).isErr = true := by decide
 example : u8Of (.some (.int .i32 255)) = .ok 255 := by decide
 example : (u8Of (.int .i32 256)).isErr = true := by decide
+
+/-! ## reader direction: what `cast` says must fail, fails
+
+Proof: `Lemmas/C05ReadLeaf.lean` (scalar targets), `C05ReadCont.lean` (`noKnown`, `Option`, newtype, sequences),
+`C05ReadCont2.lean` (tuples, maps, enums), `C05ReadStruct.lean` (structs by field name); structural recursion over the
+target here. -/
+
+section Reader
+open SaModel.Read
+
+mutual
+theorem read_rej : ∀ (t : Target), Rej t
+  | .any => rej_any
+  | .ignored => rej_ignored
+  | .unit => rej_scalar (m := .unit) rfl (fun _ _ => by simp only [Read.cast])
+      (fun a lv _ => intAsBool_not_bool (by simp) a lv) (fun _ _ => by simp only [readAs])
+  | .unitStruct => rej_scalar (m := .unitStruct) rfl (fun _ _ => by simp only [Read.cast])
+      (fun a lv _ => intAsBool_not_bool (by simp) a lv) (fun _ _ => by simp only [readAs])
+  | .bool => rej_scalar (m := .bool) rfl (fun _ _ => by simp only [Read.cast])
+      (fun a lv h => by simpa [noKnown] using h) (fun _ _ => by simp only [readAs])
+  | .int ty => rej_scalar (m := .int ty) rfl (fun _ _ => by simp only [Read.cast])
+      (fun a lv _ => intAsBool_not_bool (by simp) a lv) (fun _ _ => by simp only [readAs])
+  | .f32 => rej_scalar (m := .f32) rfl (fun _ _ => by simp only [Read.cast])
+      (fun a lv _ => intAsBool_not_bool (by simp) a lv) (fun _ _ => by simp only [readAs])
+  | .f64 => rej_scalar (m := .f64) rfl (fun _ _ => by simp only [Read.cast])
+      (fun a lv _ => intAsBool_not_bool (by simp) a lv) (fun _ _ => by simp only [readAs])
+  | .char => rej_scalar (m := .char) rfl (fun _ _ => by simp only [Read.cast])
+      (fun a lv _ => intAsBool_not_bool (by simp) a lv) (fun _ _ => by simp only [readAs])
+  | .string => rej_scalar (m := .string) rfl (fun _ _ => by simp only [Read.cast])
+      (fun a lv _ => intAsBool_not_bool (by simp) a lv) (fun _ _ => by simp only [readAs])
+  | .str => rej_scalar (m := .str) rfl (fun _ _ => by simp only [Read.cast])
+      (fun a lv _ => intAsBool_not_bool (by simp) a lv) (fun _ _ => by simp only [readAs])
+  | .bytes => rej_bytes
+  | .byteBuf => rej_byteBuf
+  | .option t => rej_option (read_rej t)
+  | .newtype t => rej_newtype (read_rej t)
+  | .seq t => rej_seq (read_rej t)
+  | .tuple ts => rej_tuple (targets_rej ts)
+  | .tupleStruct ts => rej_tupleStruct (targets_rej ts)
+  | .map k v => rej_map (read_rej k) (read_rej v)
+  | .struct tfs => rej_struct (tfields_rej tfs)
+  | .enum _ vs => rej_enum (variants_rej vs)
+theorem targets_rej : ∀ (ts : Targets), ∀ t ∈ Targets.toList ts, Rej t
+  | .nil, t, h => by simp [Targets.toList] at h
+  | .cons t' rest, t, h => by
+    simp only [Targets.toList, List.mem_cons] at h
+    rcases h with h | h
+    · rw [h]; exact read_rej t'
+    · exact targets_rej rest t h
+theorem tfields_rej : ∀ (tfs : TFields), ∀ p ∈ TFields.toList tfs, Rej p.2
+  | .nil, p, h => by simp [TFields.toList] at h
+  | .cons n t' rest, p, h => by
+    simp only [TFields.toList, List.mem_cons] at h
+    rcases h with h | h
+    · rw [h]; exact read_rej t'
+    · exact tfields_rej rest p h
+theorem variants_rej : ∀ (vs : TVariants), ∀ p ∈ TVariants.toList vs, KRej p.2
+  | .nil, p, h => by simp [TVariants.toList] at h
+  | .cons n k rest, p, h => by
+    simp only [TVariants.toList, List.mem_cons] at h
+    rcases h with h | h
+    · rw [h]; exact kind_rej k
+    · exact variants_rej rest p h
+theorem kind_rej : ∀ (k : VKind), KRej k
+  | .unit => krej_unit
+  | .newtype t => krej_newtype (read_rej t)
+  | .tuple ts => krej_tuple (targets_rej ts)
+  | .struct tfs => krej_struct (tfields_rej tfs)
+end
+
+/-- **C05, reading direction.**  For EVERY target type `t` (scalars, `Option`, newtype, `Vec`, tuples, maps, structs by
+field name, enums by name or index, nested to any depth), EVERY array `a` and slot `i` whose Arrow reading is defined
+(`decodeAt a i = ok lv`), under the hypotheses of `Props.C02.read_typed_decode` (the reader was built, lengths are
+representable, strings are UTF-8): if the value-level specification says the value has no exact representation in `t`
+(`cast t a lv` is an error: `mustFail _`), the typed read fails — it never returns a wrapped, truncated, defaulted or
+hidden value.  `noKnown t a lv` excludes exactly the two recorded known findings (#23 a null container slot into a
+non-`Option` container target, #24 an integer column read as `bool`), wherever they occur inside the value. -/
+theorem read_mustFail (t : Target) (a : Arr) (i : Nat) (lv : LVal) (why : String)
+    (hc : Read.cast t a lv = mustFail why) (h : decodeAt a i = .ok lv)
+    (hn : new Fixes.all a = .ok ()) (hp : physical a = true) (hu : utf8Ok lv = true)
+    (hk : noKnown t a lv = true) : ∃ e, readAs Fixes.all t a i = .error e :=
+  isOk_false_iff.1 (read_rej t a i lv _ h hn hp hu hk hc)
+
+/-- the same for any error claim, with the materialising oracle `Spec.decode` -/
+theorem read_mustFail_spec (t : Target) (a : Arr) (i : Nat) (lv : LVal) (e0 : Fail)
+    (hc : Read.cast t a lv = .error e0) (h : Spec.decode a i = .ok lv)
+    (hn : new Fixes.all a = .ok ()) (hp : physical a = true) (hu : utf8Ok lv = true)
+    (hk : noKnown t a lv = true) : ∃ e, readAs Fixes.all t a i = .error e :=
+  isOk_false_iff.1 (read_rej t a i lv _ (Props.C02.decode_eq_decodeAt a i ▸ h) hn hp hu hk hc)
+
+/-- typed reads are exact or fail: with `Props.C02.read_typed_decode`, wherever `cast` makes a claim about a slot
+(`must d` or `mustFail`), a successful read returned exactly the claimed value -/
+theorem read_ok_exact (t : Target) (a : Arr) (i : Nat) (lv : LVal) (d : DVal) (c : Option DVal)
+    (h : decodeAt a i = .ok lv) (hn : new Fixes.all a = .ok ()) (hp : physical a = true) (hu : utf8Ok lv = true)
+    (hk : noKnown t a lv = true) (hr : readAs Fixes.all t a i = .ok d) :
+    (∀ e, Read.cast t a lv ≠ .error e) ∧ (Read.cast t a lv = .ok c → c = none ∨ c = some d) := by
+  constructor
+  · intro e hc
+    have := read_rej t a i lv e h hn hp hu hk hc
+    rw [hr] at this; cases this
+  · intro hc
+    cases c with
+    | none => exact .inl rfl
+    | some d' =>
+      have := Props.C02.read_typed_decode t a i lv d' h hn hp hu hc
+      rw [hr] at this; cases this; exact .inr rfl
+
+/-- integer / float / … targets never read a string or binary column: those readers implement none of the numeric
+`deserialize_*` methods (`cast` makes no claim there: the pair is unsupported, and it is refused) -/
+theorem read_text_as_number_fails (t : Target) (ht : (∃ ty, t = .int ty) ∨ t = .f32 ∨ t = .f64 ∨ t = .bool ∨ t = .char)
+    (a : Arr) (ha : (∃ ty v offs data, a = .bytes ty v offs data) ∨ (∃ ty v views bufs, a = .bytesView ty v views bufs) ∨
+      (∃ n v data, a = .fixedSizeBinary n v data) ∨ (∃ ks vs, a = .dictionary ks vs)) (i : Nat) :
+    ∃ e, readAs Fixes.all t a i = .error e := by
+  apply isOk_false_iff.1
+  rcases ht with ⟨ty, rfl⟩ | rfl | rfl | rfl | rfl <;>
+  rcases ha with ⟨ty', v, offs, data, rfl⟩ | ⟨ty', v, views, bufs, rfl⟩ | ⟨n, v, data, rfl⟩ | ⟨ks, vs, rfl⟩ <;>
+    (simp only [readAs]; unfold scalar;
+     first
+      | (simp [notImpl, fail, bind, Except.bind, R.isOk]; done)
+      | (split <;> simp [notImpl, fail, bind, Except.bind, R.isOk]))
+
+/-! ### the exclusions are needed (known findings #23, #24) -/
+
+/-- #23: the slot is null, `cast` says the read must fail, `noKnown` is false, the code returns the hidden `(42,)` -/
+theorem exclusion_23_needed :
+    let a : Arr := .struct 1 (some ⟨[0], 0⟩) (.cons ⟨"x", false, []⟩ (.prim .int32 none [42]) .nil)
+    let t : Target := .tuple (.cons (.int .i32) .nil)
+    decodeAt a 0 = .ok .null ∧ new Fixes.all a = .ok () ∧ physical a = true ∧
+    Read.cast t a .null = mustFail "null into a non-Option target" ∧ noKnown t a .null = false ∧
+    readAs Fixes.all t a 0 = .ok (.seq (.cons (.int .i32 42) .nil)) := by decide
+
+/-- #24: Int32 value 2 read as `bool`: `cast` says the read must fail, `noKnown` is false, the code returns `true` -/
+theorem exclusion_24_needed :
+    let a : Arr := .prim .int32 none [2]
+    decodeAt a 0 = .ok (.int 2) ∧ new Fixes.all a = .ok () ∧ physical a = true ∧
+    Read.cast .bool a (.int 2) = mustFail "not a bool" ∧ noKnown .bool a (.int 2) = false ∧
+    readAs Fixes.all .bool a 0 = .ok (.bool true) := by decide
+
+/-! ### non-vacuity: the classes of the property, each meeting every hypothesis of `read_mustFail` (computed) -/
+
+def rdLv (a : Arr) (i : Nat) : LVal := match decodeAt a i with | .ok lv => lv | .error _ => .null
+
+def isMustFail : Claim → Bool
+  | .error _ => true
+  | _ => false
+
+/-- (target, column, slot) triples: integer widths in both directions, char from u32, null into non-Option leaf
+targets, tuple longer than the struct, missing field, unknown variant name / index, an offending element deep inside -/
+def rdCases : List (Target × Arr × Nat) :=
+  [ (.int .i8, .prim .int32 none [128], 0), (.int .u8, .prim .int8 none [-1], 0),
+    (.int .u32, .prim .int64 none [4294967296], 0), (.int .i64, .prim .uint64 none [9223372036854775808], 0),
+    (.int .i16, .prim .uint16 none [32768], 0), (.int .i32, .prim .date64 none [2147483648], 0),
+    (.char, .prim .uint32 none [55296], 0), (.char, .prim .uint32 none [1114112], 0), (.char, .prim .int64 none [-1], 0),
+    (.int .i32, .prim .int32 (some ⟨[0], 0⟩) [7], 0), (.string, .bytes .utf8 (some ⟨[0], 0⟩) [0, 0] [], 0),
+    (.bool, .boolean 1 (some ⟨[0], 0⟩) ⟨[1], 0⟩, 0), (.f64, .prim .float64 (some ⟨[0], 0⟩) [0], 0),
+    (.tuple (.cons (.int .i32) (.cons (.int .i32) .nil)),
+      .struct 1 none (.cons ⟨"x", false, []⟩ (.prim .int32 none [42]) .nil), 0),
+    (.struct (.cons "y" (.int .i32) .nil), .struct 1 none (.cons ⟨"x", false, []⟩ (.prim .int32 none [42]) .nil), 0),
+    (.enum false (.cons "A" .unit .nil), .bytes .utf8 none [0, 1] [66], 0),
+    (.enum false (.cons "A" .unit .nil),
+      .union [1] (some [0]) (.cons 0 ⟨"A", false, []⟩ (.null 0) (.cons 1 ⟨"B", false, []⟩ (.null 1) .nil)), 0),
+    (.enum true (.cons "A" .unit .nil),
+      .union [1] (some [0]) (.cons 0 ⟨"A", false, []⟩ (.null 0) (.cons 1 ⟨"B", false, []⟩ (.null 1) .nil)), 0),
+    (.seq (.struct (.cons "x" (.option (.int .u8)) .nil)),
+      .list false none [0, 2] ⟨"element", false, []⟩
+        (.struct 2 none (.cons ⟨"x", true, []⟩ (.prim .int32 (some ⟨[3], 0⟩) [1, 256]) .nil)), 0) ]
+
+example : ∀ c ∈ rdCases, decodeAt c.2.1 c.2.2 = .ok (rdLv c.2.1 c.2.2) ∧ new Fixes.all c.2.1 = .ok () ∧
+    physical c.2.1 = true ∧ utf8Ok (rdLv c.2.1 c.2.2) = true ∧ noKnown c.1 c.2.1 (rdLv c.2.1 c.2.2) = true ∧
+    isMustFail (Read.cast c.1 c.2.1 (rdLv c.2.1 c.2.2)) = true ∧ (readAs Fixes.all c.1 c.2.1 c.2.2).isOk = false := by
+  decide +kernel
+
+end Reader
 
 end SaModel.Props.C05
